@@ -113,7 +113,7 @@ EXPORT errno_t _strcspn_s_chk(const char *dest, rsize_t dmax, const char *src,
     if (srcbos == BOS_UNKNOWN) {
         BND_CHK_PTR_BOUNDS(src, slen);
     } else if (unlikely(slen > srcbos)) {
-        invoke_safe_mem_constraint_handler("strcspn_s: slen exceeds src",
+        invoke_safe_str_constraint_handler("strcspn_s: slen exceeds src",
                                            (void *)src, EOVERFLOW);
         return (RCNEGATE(EOVERFLOW));
     }
